@@ -367,6 +367,13 @@ pub fn all_seeds_with(radius2: bool) -> Vec<(String, Target, V, Vec<u8>)> {
             let wire = wire.canon();
             let bytes = t.bytes(&wire);
             out.push((format!("{}:full-with-legacy-url", t.name()), t.clone(), wire, bytes));
+            // parameter entries of a foreign credential type before and between the known ones
+            let mut wire = plan.build(plan.full_mask(), &[]);
+            if let Some(p) = crate::treewalk::get_mut(&mut wire, &[crate::treewalk::Step::Key(V::U(4))]) {
+                *p = V::A(vec![refmodel::param(-8, "private-key"), refmodel::param(-7, PUBLIC_KEY), refmodel::param(-257, "x"), refmodel::param(-8, PUBLIC_KEY)]);
+            }
+            let bytes = t.bytes(&wire);
+            out.push((format!("{}:full-with-foreign-type-entries", t.name()), t.clone(), wire, bytes));
         }
     }
     out
@@ -394,6 +401,22 @@ pub fn seed_msgs(full_and_minimal_only: bool) -> Vec<SeedMsg> {
         .filter(|s| !full_and_minimal_only || s.0.ends_with(":full") || s.0.ends_with(":minimal"))
         .map(|(label, target, wire, _)| SeedMsg { label, target, wire })
         .collect()
+}
+
+/// the same tree with the entries of every map in reverse order (arrays untouched): members sent
+/// in an order other than the canonical one, which the decoder accepts
+pub fn reverse_maps(v: &V) -> V {
+    match v {
+        V::M(m) => V::M(m.iter().rev().map(|(k, x)| (k.clone(), reverse_maps(x))).collect()),
+        V::A(a) => V::A(a.iter().map(reverse_maps).collect()),
+        V::Tag(t, x) => V::Tag(*t, Box::new(reverse_maps(x))),
+        other => other.clone(),
+    }
+}
+
+/// the `:full` seeds once more with every map reversed
+pub fn reversed_full_seeds() -> Vec<SeedMsg> {
+    seed_msgs(true).into_iter().filter(|s| s.label.ends_with(":full")).map(|s| SeedMsg { label: format!("{} (members reversed)", s.label), target: s.target, wire: reverse_maps(&s.wire) }).collect()
 }
 
 /// PX sweep over replacements: real decoder vs reference decoder on every mutated message
